@@ -311,6 +311,12 @@ def Sess.protectRtcp (S : Suite) (s : Sess) (now : Nat) (pkt : Bytes) : Except E
   if pkt.length < rtcpMinLen then (.error .tooShort, s)
   else s.withTx S now (ssrcOfRtcp pkt) (fun c => c.protectRtcp S pkt)
 
+/-- `refuse_new_rx_context_if_full`: `MAX_RX_CONTEXTS` contexts are live (would survive the idle
+eviction), so a packet for an unknown SSRC is refused before anything is looked at -/
+def rxFull (t : List Ctx) (now : Nat) : Bool :=
+  decide (maxRxContexts ≤ t.length) &&
+    decide (maxRxContexts ≤ (t.filter (fun c => now - c.lastUsed < ssrcInactivityEvictSecs)).length)
+
 /-- receive side (after the `fix:` commit): the table is touched only after `f` succeeded —
 a context is created, stamped and eviction runs only for an authenticated packet. (Whatever `f`
 does to an existing context before failing is kept, as in the code — since the second `fix:` commit
@@ -323,6 +329,7 @@ def Sess.withRx {α : Type} (S : Suite) (s : Sess) (now ssrc : Nat) (f : Ctx →
     | (.error e, c') => (.error e, { s with rx := replace s.rx c' })
     | (.ok a, c') => (.ok a, { s with rx := evict (replace s.rx { c' with lastUsed := now }) ssrc now })
   | none =>
+    if rxFull s.rx now then (.error .internal, s) else
     match Ctx.new S ssrc s.profile s.rxMk s.rxMs now with
     | .error e => (.error e, s)
     | .ok c =>
